@@ -78,6 +78,10 @@ pub enum GOp {
     Copy { from: u8, to: u8, create: bool },
     Rename { from: u8, to: u8, create: bool },
     Recache,
+    /// Writer hand-over: the calls that follow go through the OTHER live wrapper
+    /// instance over the same backend (its metadata cache is as warm - and as
+    /// stale - as it was left).
+    Handover,
 }
 
 pub const PREFIXES: [&str; 5] = ["a", "a/b", "d", "x", "a/b/c"];
@@ -837,7 +841,7 @@ impl Exec {
         let s = self.store.as_ref();
         let inv = self.sim.tick();
         match g {
-            GOp::Recache => {}
+            GOp::Recache | GOp::Handover => {}
             GOp::Put { key, val, mode } => {
                 let mmode = match mode {
                     GMode::Overwrite => MMode::Overwrite,
@@ -1319,6 +1323,64 @@ impl Harness for H {
             let n = rng.range(3, if tier == Tier::Thorough { 18 } else { 12 });
             ((0..n).map(|_| gen_op(&mut rng, false)).collect(), vec![])
         };
+        let mut prefix = prefix;
+        if !self.bare && clients.is_empty() && rng.chance(1, 4) {
+            // Writer hand-over between two live instances. What the wrappers promise
+            // a handle whose cache lags the backend is that its WRITES are checked
+            // against the committed truth (reads may be served from the lagging
+            // cache for its lifetime). So through either instance, a key the other
+            // instance has written is only ever written - conditionally, mostly -
+            // and never read, copied from or listed; the history ends on a cold
+            // instance.
+            let mut out: Vec<GOp> = Vec::new();
+            let mut cur = 0usize;
+            let mut written: [std::collections::BTreeSet<u8>; 2] = [Default::default(), Default::default()];
+            let mut extra = 0u32;
+            let n = prefix.len();
+            for (i, g) in prefix.into_iter().enumerate() {
+                if i > 0 && rng.chance(1, 3) || i == n / 2 {
+                    out.push(GOp::Handover);
+                    cur = 1 - cur;
+                }
+                let stale = &written[1 - cur];
+                let reads: Vec<u8> = match &g {
+                    GOp::Get { key, .. } | GOp::GetRange { key, .. } | GOp::GetRanges { key, .. } => vec![*key],
+                    GOp::Copy { from, .. } | GOp::Rename { from, .. } => vec![*from],
+                    GOp::List { .. } | GOp::ListDelim { .. } => (0..nkeys).collect(),
+                    _ => vec![],
+                };
+                let g = match reads.iter().find(|k| stale.contains(k)) {
+                    Some(k) => {
+                        extra += 1;
+                        let mode = match rng.weighted(&[45, 25, 15, 15]) {
+                            0 => GMode::Update(TokSel::Latest(*k)),
+                            1 => GMode::Update(TokSel::Older(*k)),
+                            2 => GMode::Create,
+                            _ => GMode::Overwrite,
+                        };
+                        let sizes = boundary_sizes(chunk);
+                        GOp::Put { key: *k, val: Val { tag: ((idx as u32) << 8) + 200 + extra, len: *rng.pick(&sizes) }, mode }
+                    }
+                    None => g,
+                };
+                match &g {
+                    GOp::Put { key, .. } | GOp::Multi { key, .. } | GOp::Delete { key } => {
+                        written[cur].insert(*key);
+                    }
+                    GOp::Copy { to, .. } => {
+                        written[cur].insert(*to);
+                    }
+                    GOp::Rename { from, to, .. } => {
+                        written[cur].insert(*from);
+                        written[cur].insert(*to);
+                    }
+                    _ => {}
+                }
+                out.push(g);
+            }
+            out.push(GOp::Recache);
+            prefix = out;
+        }
         let policy = match rng.below(4) {
             0 => Policy::Uniform,
             1 => Policy::Sticky(12),
@@ -1366,10 +1428,17 @@ impl Harness for H {
             split_lists: false,
         };
         // sequential prefix
+        let mut other = None;
         let mut mem0 = ClientMem::default();
         for (gi, g) in case.prefix.iter().enumerate() {
             if *g == GOp::Recache {
                 ex.store = self.build_store(case, &store);
+                continue;
+            }
+            if *g == GOp::Handover {
+                let next = other.take().unwrap_or_else(|| self.build_store(case, &store));
+                other = Some(std::mem::replace(&mut ex.store, next));
+                rep.probe("writer_handovers_between_live_instances", 1);
                 continue;
             }
             let t0 = sim.clock().now_ms();
